@@ -667,7 +667,15 @@ impl Writer {
                 }
             }
         }
-        if !self.style.one_line || self.rnd(2) == 0 {
+        // the end of the text: newline, nothing, or (with layout noise) a comment that the end of
+        // input terminates
+        if self.style.noise >= 1 && self.rnd(8) == 0 {
+            match self.rnd(3) {
+                0 => self.out.push_str(" // the end"),
+                1 => self.out.push_str("\n// fn main() {"),
+                _ => self.out.push_str(" /* end */"),
+            }
+        } else if !self.style.one_line || self.rnd(2) == 0 {
             let nl = self.nlstr();
             self.out.push_str(nl);
         }
